@@ -45,6 +45,9 @@ def run_one(pid, tier, repo, replay=None):
             thorough.run_extras(chk, ctx, pid, mod)
         return chk.finish()
     except AnalysisError as err:
+        hook = getattr(mod, 'on_unbounded_recursion', None)
+        if hook is not None and type(err).__name__ == 'UnboundedRecursion':
+            hook(chk, err)
         if any(not o.ok for o in chk.obligations):
             # violations already established stay violations; the part that
             # could not be analysed is reported as undecided
